@@ -27,6 +27,14 @@ def run(ctx, prop):
         ctx.violation(m["signature"], m["detail"], m["case"], "runtime_replay")
     for x in s["samples"]:
         ctx.sample(x)
+    if prop == "C06":
+        # the previous store is handed to the next build: multi-build histories through the real executable
+        wd = ctx.workdir("hist")
+        h = vlib.harness(ctx, "history_drive", [os.path.join(wd, "hist.ndjson"), "3" if ctx.tier == "quick" else "20", "5", "5"])
+        for m in h["mismatches"]:
+            if m["signature"].startswith("C06:"):
+                ctx.violation(m["signature"], m["detail"], m["case"], "history_drive")
+        ctx.cov["store_round_trips"] = h["evaluations"]
     ctx.add("evaluations", s["evaluations"])
     ctx.add("distinct_nontrivial", s["distinct_nontrivial"])
     ctx.add("traces_validated_against_impl", s["evaluations"])
